@@ -520,14 +520,17 @@ def run_fortran_case(case, ctx):
     M = small()
     others = [small() for _ in range(rnd.randint(1, 2))]
     fname = rnd.choice([None, None, 'shared_mod'])
-    hist = [{'clear': rnd.random() < 0.5} for _ in others]
+    # (earlier builds may use the other float precision: the helper functions of a build - sigmoid, sign, interp - carry it)
+    hist = [{'clear': rnd.random() < 0.5, 'prec': rnd.choice(['float64', 'float32', 'float32'])} for _ in others]
     res = {'features': ['fortran_file_name', 'default_name' if fname is None else 'explicit_name'], 'risk': [],
            'sig': stable_hash([M, others, fname, hist]), 'nontrivial': True}
     kw = {'file_name': fname} if fname else {}
     try:
         for spec_i, h in zip(others, hist):
             try:
-                observe.compile_vf(spec_i, vectorize=False, backend='fortran', clear=h['clear'], **kw)
+                observe.compile_vf(spec_i, vectorize=False, backend='fortran', clear=h['clear'], float_precision=h['prec'], **kw)
+                if h['prec'] == 'float32':
+                    mech['hist_other_precision'] = mech.get('hist_other_precision', 0) + 1
             except Exception as e:
                 import traceback
                 raise observe.Mismatch(f"loud: history compile (fortran) raised {type(e).__name__}: {e} :: {traceback.format_exc()[-300:]}")
